@@ -398,4 +398,15 @@ def proof_step(res, modules, namespace, extra_targets=()):
             failing.append(f"<axioms:{b['name']}:{','.join(b['axioms'])}>")
         if len(aud) < len(thms):
             failing.append(f'<audit saw {len(aud)} theorems, source has {len(thms)}>')
+    if ok and res.tier == 'thorough' and res.report_tier is None:
+        # second opinion: the compiled modules replayed through the toolchain's independent kernel re-checker
+        lc_bad = []
+        with lean_lock():
+            for m in modules:
+                r = run(['lake', 'env', 'leanchecker', m], cwd=LEAN, timeout=3600)
+                if r.returncode != 0:
+                    lc_bad.append(m)
+        res.coverage['leanchecker'] = 'ok' if not lc_bad else 'FAILED: ' + ', '.join(lc_bad)
+        for m in lc_bad:
+            failing.append(f'<leanchecker:{m}>')
     return (ok and not failing), failing
